@@ -179,7 +179,7 @@ func init() {
 		ID:    "C04",
 		Level: "exploration",
 		Rule: "(b) concurrent: Engine S (see C16) on the scenarios PushPull||PushPull (2 and 3 clients, with and without background snapshot store), the same client's PushPull twice in flight, PushPull||Detach, PushPull||Attach with snapshot pull: " +
-			"ALL schedules with at most 2 preemptions (thorough 3) over named-lock operations, storage calls and background tasks; " +
+			"ALL schedules with at most 2 preemptions (thorough 3; one less for three threads) over named-lock operations, storage calls and background tasks; " +
 			"(a) sequential: every normal-form history of 3 clients (push-pull and push-only syncs, detach/attach mixes) through Engine H; " +
 			"oracle on every execution: stored serverSeqs are exactly 1..N, per actor clientSeqs grow with serverSeq, every client's concatenated deliveries equal the log restricted to other actors in order up to its checkpoint, no echo, " +
 			"response checkpoints monotone and never beyond the head, followed by C01's convergence; evaluations = schedules + histories; non-trivial = schedules with a preemption / histories with concurrent edits",
